@@ -178,6 +178,7 @@ fn timer_list(e: &'static Engine, adders: &'static [&'static str]) {
             let mut last = None;
             for (k, o) in ops.chars().enumerate() {
                 match o {
+                    's' => e.vsleep(MS),
                     'd' => {
                         if let Some((h, data)) = last.take() {
                             let now = may::verif::now();
@@ -285,9 +286,11 @@ pub fn build(quick: bool) -> Vec<Scenario> {
         }
     }
     // timer list component
-    for adders in [&["22"][..], &["23"], &["2d"], &["32d"], &["2", "2"], &["2", "4"], &["0", "2"], &["2d", "2"], &["24", "2d"]] {
+    // fine granularity: the entry list (mpsc_list_v1) and the heap bookkeeping are interleaved step by step;
+    // 's' = the adder first sleeps 1 ms, so that its add coincides with the expiry of an earlier 1 ms timer
+    for adders in [&["22"][..], &["23"], &["2d"], &["32d"], &["2", "2"], &["2", "4"], &["0", "2"], &["2d", "2"], &["24", "2d"], &["2", "s2"], &["2", "s2s2"], &["22", "s2"], &["2", "s4"]] {
         let adders: &'static [&'static str] = adders;
-        v.push(Scenario::new("C08", "timer_list", format!("timerlist.{}", adders.join("_")), Arc::new(move |e| timer_list(e, adders))).t2().vt_horizon(100 * MS).tier(quick));
+        v.push(Scenario::new("C08", "timer_list", format!("timerlist.{}", adders.join("_")), Arc::new(move |e| timer_list(e, adders))).fine().t2().vt_horizon(100 * MS).tier(quick));
     }
     v
 }
